@@ -24,6 +24,7 @@ MENU = [
     ("fix", "-S", "0", "-B", "1"), ("fix", "-S", "0", "-B", "2"), ("fix", "-S", "0", "-B", "3"), ("fix", "-S", "0", "-B", "4"),
     ("fix", "-S", "0", "-B", "5"), ("fix", "-S", "0", "-B", "6"), ("fix", "-S", "2", "-B", "2"), ("fix", "-S", "3", "-B", "3"),
     ("check", "-S", "1", "-B", "2"), ("fix", "-B", "2", "-f", "a"), ("fix", "-B", "3", "-m"),
+    ("fix", "-b"), ("check", "-b"), ("fix", "-e", "-f", "a"), ("fix", "-b", "-d", "d2"),
 ]
 THREADED = [("sync",), ("scrub", "-p", "full"), ("fix",), ("check",)]
 
@@ -57,6 +58,8 @@ def conditions(cfg):
         "partial-loss": [("emptydisk", "d1")],
         # some files of each disk missing, the others intact (a partial fix must not touch the intact ones)
         "some-missing": [("rm", "d1", "a"), ("rm", "d1", "dir/t0"), ("rm", "d2", "c"), ("rm", "d1", "ln"), ("rmdir", "d1", "ed")],
+        # an earlier scrub recorded bad blocks; the files they belong to got lost afterwards (-e / -b selections)
+        "bad-then-missing": [("dmg-data", "d1", "a"), ("dmg-data", "d2", "c"), ("cmd", "scrub", "-p", "full"), ("rm", "d1", "a"), ("rm", "d2", "c")],
         "partial-loss-parity": [("lose-parity", 0), ("write", "d2", "n2", 800, 0)],
         "interrupted": [("write", "d1", "n", 1500, 0), ("cmd", "sync", "--test-kill-after-sync"), ("rm", "d2", "c")],
     }
